@@ -249,6 +249,14 @@ def file_log(name):
     return FILE_LOGS.setdefault(name, [])
 
 
+def json_content(file_name):
+    raise NotImplementedError('json_content has no concrete reading (native=False contracts only)')
+
+
+def is_module_global(name):
+    raise NotImplementedError('is_module_global has no concrete reading (native=False contracts only)')
+
+
 def rng_seed(r):
     raise NotImplementedError('rng_seed has no concrete reading')
 
